@@ -7,3 +7,4 @@ pub mod list;
 pub mod mnemonic;
 pub mod path;
 pub mod resp;
+pub mod status;
